@@ -26,8 +26,8 @@ impl Check for C02 {
     }
     fn phases(&self, tier: Tier) -> Vec<Phase> {
         match tier {
-            Tier::Quick => vec![Phase::random("structure-profile", 5_000, 2048).batch(100).watchdog(30_000)],
-            Tier::Thorough => vec![Phase::random("structure-profile", 120_000, 2048).batch(200).watchdog(30_000)],
+            Tier::Quick => vec![Phase::random("structure-profile", 8_000, 2048).batch(100).watchdog(30_000)],
+            Tier::Thorough => vec![Phase::random("structure-profile", 150_000, 2048).batch(200).watchdog(30_000)],
         }
     }
     fn describe(&self, _phase: usize, tape: &[u8]) -> String {
